@@ -81,3 +81,40 @@ def mkDual (cv : Vec) (pts : List Vec) (vals : Vec) (h : Vec) : Vec :=
   h.map (fun x => x - viol)
 
 end AITB.C12Check
+
+namespace AITB.C12Check
+open AITB.Prune AITB.Interp
+
+/-! ### the envelope clause as the driver evaluates it (certificates are untrusted inputs) -/
+
+/-- one certificate sent by the harness for array slot `idx`: Farkas multipliers and/or a witness belief -/
+structure Cert where
+  idx : Nat
+  lam : Option Vec
+  b : Option Vec
+
+/-- corners, edge midpoints and the centre of the simplex of dimension `S` -/
+def probeBeliefs (S : Nat) : List Vec :=
+  let unit := fun (i : Nat) => (List.range S).map (fun s => if s == i then (1 : Rat) else 0)
+  let mids := (List.range S).flatMap (fun i => ((List.range S).filter (fun j => i < j)).map (fun j =>
+    (List.range S).map (fun s => if s == i || s == j then (1 : Rat) / 2 else 0)))
+  (List.range S).map unit ++ mids ++ (if S == 0 then [] else [(List.range S).map (fun _ => (1 : Rat) / S)])
+
+inductive Env where | ok | bad | undecided
+  deriving BEq, DecidableEq
+
+/-- is removed vector `r` within `eps` of the envelope of `kept`, as far as the certificates decide -/
+def envelopeClause (S : Nat) (eps : Rat) (kept : List Vec) (r : Vec) (c : Option Cert) : Env :=
+  if pairwiseOK eps kept r then .ok else
+  match c with
+  | none => if (probeBeliefs S).any (fun b => violationOK S eps kept b r) then .bad else .undecided
+  | some c =>
+    let fk := match c.lam.bind normalize with
+      | some l => farkasOK S eps kept l r
+      | none => false
+    if fk then .ok else
+    -- violated envelope: the certificate's belief, or (independent of any LP) a corner, an edge midpoint, the centre
+    let cands := (match c.b.bind normalize with | some b => [b] | none => []) ++ probeBeliefs S
+    if cands.any (fun b => violationOK S eps kept b r) then .bad else .undecided
+
+end AITB.C12Check
